@@ -256,7 +256,25 @@ func checkC18(w *Worker) {
 				fatalHarness("channel model validation: input %s consumer %d terminates in every modelled schedule but the free run on real channels did not finish in 20s", inputs[k.in].Name, k.pol)
 			}
 			if !outs[strings.Join(ev, " | ")] {
-				fatalHarness("channel model validation: input %s consumer %d: real channels produced %v, which no modelled schedule produced (%v)", inputs[k.in].Name, k.pol, ev, outs)
+				// the free run disagrees with every modelled schedule. If what the real channels delivered
+				// is not the callback parser's result, the property is broken on the real program (e.g. a
+				// node mutated after it was sent); otherwise the model is wrong.
+				refEvents, refErr := c18Reference(inputs[k.in])
+				want := append([]string{}, refEvents...)
+				if refErr != "" {
+					want = append(want, "error:"+refErr)
+					if k.pol == 1 {
+						want = append(want, "done")
+					}
+				} else {
+					want = append(want, "done")
+				}
+				if strings.Join(want, " | ") == strings.Join(ev, " | ") {
+					fatalHarness("channel model validation: input %s consumer %d: real channels produced %v, which no modelled schedule produced (%v)", inputs[k.in].Name, k.pol, ev, outs)
+				}
+				sig := "C18|free-run-on-real-channels|wrong-observation"
+				w.ViolCount[sig]++
+				w.Violations = append(w.Violations, Violation{Sig: sig, Explore: "free-run", Detail: fmt.Sprintf("input %s (%q), consumer policy %d, free-running on real channels: consumer saw %v, the callback parser gives %v (every cooperative schedule gave %v)", inputs[k.in].Name, inputs[k.in].Text, k.pol, ev, want, outs)})
 			}
 			validated++
 		}
